@@ -133,6 +133,13 @@ def handle : List String → String
       let finding := if e.dupFree then "-" else "C08/qmark-duplicated"
       s!"impl={encBool (qmarkAccepts e k)}\tspec={encBool (e.phs == k)}\tfinding={finding}"
     | _, _ => "bad-op"
+  | ["explode", counts, n] =>
+    match n.toNat? with
+    | some k =>
+      let cs := decNatList counts
+      let impl := explodeAccepts cs k
+      s!"impl={encBool impl}\tspec=1\tfinding={if impl then "-" else "C08/qmark-merge"}"
+    | none => "bad-op"
   | ["duck", s] =>
     let cs := decStr s
     let r := match duckLex (duckGen cs ++ ['\'']) with
